@@ -128,12 +128,12 @@ type c12Rec struct {
 	listed     map[string]string // list ops: name/uri -> description (version tag)
 	order      []string          // list ops: order
 	dup        string
-	ballast    int    // list ops: ballast entries listed
-	blocked    bool   // register ops: the registration call did not return
+	ballast    int               // list ops: ballast entries listed
+	blocked    bool              // register ops: the registration call did not return
 	props      map[string]string // tools/list: name -> the parameter names of the listed input schema
-	ok         bool   // call/get/read succeeded
-	text       string // call/get/read payload
-	code       int    // error code
+	ok         bool              // call/get/read succeeded
+	text       string            // call/get/read payload
+	code       int               // error code
 	raw        string
 }
 
@@ -646,12 +646,12 @@ func TestC12(t *testing.T) {
 // notification handlers registered while client notifications arrive (all three server kinds)
 
 type C12NotifCase struct {
-	Mode       Mode `json:"mode"`       // ModeSJ, ModeLegacy or ModeStdio
-	Registrars int  `json:"registrars"` // goroutines registering handlers concurrently
-	Regs       int  `json:"regs"`       // registrations per registrar (names cycle over a small pool, so names are re-registered)
-	Senders    int  `json:"senders"`    // client connections sending notifications
-	Notifs     int  `json:"notifs"`     // notifications per sender
-	Twin       bool `json:"twin,omitempty"` // a second server of the same kind lives in the process and gets handlers of its own registered at the same time
+	Mode       Mode `json:"mode"`            // ModeSJ, ModeLegacy or ModeStdio
+	Registrars int  `json:"registrars"`      // goroutines registering handlers concurrently
+	Regs       int  `json:"regs"`            // registrations per registrar (names cycle over a small pool, so names are re-registered)
+	Senders    int  `json:"senders"`         // client connections sending notifications
+	Notifs     int  `json:"notifs"`          // notifications per sender
+	Twin       bool `json:"twin,omitempty"`  // a second server of the same kind lives in the process and gets handlers of its own registered at the same time
 	Churn      int  `json:"churn,omitempty"` // a further goroutine registers and unregisters "notifications/churn" this many times while the senders also send that method
 }
 
